@@ -196,8 +196,12 @@ func (s *session) sendLogonInReplyTo(setResetSeqNum bool, inReplyTo *Message) er
 					// we can't resend what we never sent! something unrecoverable has happened.
 					return RejectLogon{fmt.Sprintf("Tag 789 (NextExpectedMsgSeqNum) is higher than expected. Expected %d, Received %d", actualNextNum, targetWantsNextSeqNumToBe)}
 				}
+				// The Logon we answer is consumed only if it carries the number we expect.
 				nextSeqNum := s.store.NextTargetMsgSeqNum()
-				logon.Body.SetField(tagNextExpectedMsgSeqNum, FIXInt(nextSeqNum+1))
+				if seqNum, seqErr := inReplyTo.Header.GetInt(tagMsgSeqNum); seqErr == nil && seqNum == nextSeqNum {
+					nextSeqNum++
+				}
+				logon.Body.SetField(tagNextExpectedMsgSeqNum, FIXInt(nextSeqNum))
 			}
 		} else {
 			// We are sending a logon.
